@@ -6,6 +6,15 @@ ids=[p['id'] for p in props]
 
 # id -> (technique, level text, level note, design ref)
 BUILT={
+"C09": ("proptest over batches of concurrent/pipelined clients sending values in every legal encoding to typed echo endpoints; round-trip (encode -> serve -> echo) oracle",
+        "Values of every declared parameter/body type (strings over all of Unicode, numeric extremes, bools, enums, options, vectors, maps, nested/recursive structs, uuid, raw bytes, multipart parts) are encoded by independent client-side encoders with randomized but legal style choices (percent-encoding eagerness/hex case, + vs %20, key order, JSON escapes and whitespace, null vs absent, content-type spelling and parameters, quoted multipart boundary, content-length vs chunked with extensions/trailers, TCP write splits) and sent by up to 16 (thorough 64) concurrent clients with keep-alive and pipelining; each echo must equal what was encoded and carry its own request's method, URI, header tag, peer address and request id.",
+        "Sampling; server-side thread interleavings are not controlled (only schedule-independent equalities are asserted). JSON floats restricted to exactly-parsed values. A connection closed by the server between responses is retried like a real client would.",
+        "DESIGN.md section 4 C09"),
+"C10": ("proptest: valid request (C09 generator) + exactly one constructed malformation from a (position x kind) table; status/shape/handler-counter oracle on a live server",
+        "Every malformed request is invalid by construction (ill-typed, out-of-range, unknown variant, missing, duplicated, 17 kinds of malformed JSON incl. truncation at every offset and trailing data, wrong/undecodable content type) in every path, query, JSON and form position; the unmodified request is first confirmed accepted; the malformed one must get a 4xx framework error with matching request id, the per-operation handler-entry counter must not move, and follow-up requests on the same and on a fresh connection must succeed.",
+        "Sampling over the malformation table; spellings the Rust parsers accept (leading '+', etc.) and float overflow are excluded from the table.",
+        "DESIGN.md section 4 C10"),
+
 "C01": ("proptest over constructively generated route tables x registration orders x probes, differential against a flat-list reference matcher (in-process lookup_route + live echo server)",
         "Generated accepted route tables (trie shapes x methods x disjoint version ranges), each registered in two shuffled orders; every probe's outcome (endpoint and variable bindings) is compared with an independent naive matcher, in-process through lookup_route and over the wire through a handler that echoes operation id and the Path<T> it received.",
         "Sampling over depth<=4 tables of <=24 endpoints; methods in canonical upper case; dot-segments/invalid UTF-8 are C03's domain.",
